@@ -229,7 +229,7 @@ func scnLifecycle(name string) *world.Scenario {
 			{Key: "gp", App: "gapp", Res: world.M(1), Placeholder: true, TaskGroup: "tg", Create: 1003},
 			{Key: "gr", App: "gapp", Res: world.M(1), TaskGroup: "tg", Create: 1004},
 		},
-		Alphabet:      []string{"SCHEDULE", "ASK", "RELEASE", "APP_ADD", "APP_REMOVE", "CONFIRM", "TIMER_STATE", "TIMER_PH", "CLEAN_EXPIRED", "NODE_REMOVE"},
+		Alphabet:      []string{"SCHEDULE", "ASK", "RELEASE", "RELEASE_ALL", "APP_ADD", "APP_REMOVE", "CONFIRM", "TIMER_STATE", "TIMER_PH", "CLEAN_EXPIRED", "NODE_REMOVE"},
 		Prefix:        []world.Op{op("NODE_ADD", "n1"), op("APP_ADD", "app1")},
 		MaxConfirmDup: 0,
 	}
